@@ -59,6 +59,7 @@ pub struct Core {
     pub steps: u64,
     pub polls: u64,
     pub timer_fires: u64,
+    pub swept: bool,
     pub packets_sent: u64,
     pub panic: Option<(String, String, String)>,
     spawnq: Vec<(String, BoxFut)>,
@@ -88,6 +89,7 @@ pub fn install() {
             steps: 0,
             polls: 0,
             timer_fires: 0,
+            swept: false,
             packets_sent: 0,
             panic: None,
             spawnq: vec![],
@@ -239,6 +241,7 @@ impl AsyncUdpSocket for SimUdp {
             if x >= 1000 - f.drop {
                 obs::count("net.packet_dropped");
                 obs::ev("pkt_drop", self.addr.port() as u64 * 4, chunk.len() as u64);
+                obs::note(|| format!("    t={:?}", now));
                 continue;
             }
             let copies = if x >= 1000 - f.drop - f.dup {
@@ -263,6 +266,7 @@ impl AsyncUdpSocket for SimUdp {
                 });
             }
             obs::ev("pkt_send", self.addr.port() as u64 * 4, chunk.len() as u64);
+            obs::note(|| format!("    t={:?}", now));
         }
         Ok(())
     }
@@ -373,6 +377,24 @@ pub fn run_until(mut done: impl FnMut() -> bool, max_steps: u64, max_virtual: Du
                 }
             }
         });
+        if std::env::var("VERIF_E3_SWEEP").is_ok() {
+            // debugging aid: before a clock jump of more than a second, poll every task once although none
+            // was woken; if that changes the outcome a wake-up was lost somewhere
+            let jump = with(|c| ev.map(|(_, (at, _))| at.saturating_sub(c.now) > Duration::from_secs(1)).unwrap_or(false) && !c.swept);
+            if jump {
+                with(|c| {
+                    c.swept = true;
+                    for t in c.tasks.iter() {
+                        if t.fut.is_some() {
+                            t.flag.store(true, Ordering::SeqCst);
+                        }
+                    }
+                });
+                obs::note(|| "debug sweep: all tasks polled before a long clock jump".to_string());
+                continue;
+            }
+            with(|c| c.swept = false);
+        }
         match ev {
             None => return Stop::Quiescent,
             Some((_, (at, _))) if at > max_virtual => return Stop::TimeCap,
@@ -387,6 +409,7 @@ pub fn run_until(mut done: impl FnMut() -> bool, max_steps: u64, max_virtual: Du
                     if at > c.now {
                         c.now = at;
                     }
+                    obs::note(|| format!("timer {id} fires t={:?}", c.now));
                     c.timer_wakers.remove(&id)
                 });
                 if let Some(w) = w {
